@@ -10,7 +10,7 @@ INVSIM_STUB = {
     "clock": "simulator clock (clock.Clock): fires ONE pending timer at a time in deadline order, quiescence after each",
     "chain notifier (block epochs)": "simulator",
     "links": "1-3 simulated links calling NotifyExitHopHtlc (sequentially, or parked and released as a burst)",
-    "htlcswitch, interceptor RPC, invoice RPC server, postgres": "not simulated (an HTLC-modifier stub is used for the 'external validation' arm)",
+    "htlcswitch, interceptor RPC, invoice RPC server, postgres": "not simulated (an HTLC-modifier stub is used for the 'external validation' arm; the stub is also a scheduling point: a call can be parked inside it while the clock moves on and the registry's MPP hold timers run, then released)",
 }
 INVSIM_ASSUME = [
     "bbolt and sqlite transaction atomicity/durability are trusted; crash granularity is one database transaction",
@@ -28,7 +28,7 @@ CHECK = {
              "spontaneous AMP, blinded-path) and <= 14 HTLCs: deliver an HTLC (amount around the invoice value or an arbitrary split, MPP total "
              "equal/different/absent, right/wrong/absent payment address, expiry at height+delta+{-1,0,+1}, AMP shares good or corrupted), replay a "
              "seen circuit key, SettleHodlInvoice, CancelInvoice, advance the clock across hold / set-timeout / invoice expiry, connect blocks, restart the "
-             "registry on the same store, bursts of 2-3 links notifying concurrently; arms: KV store, SQL store, KV and SQL in lock step (answers and "
+             "registry on the same store, bursts of 2-3 links notifying concurrently, deliveries during which time passes (and MPP hold timers fire) while the call sits in the HTLC interceptor; arms: KV store, SQL store, KV and SQL in lock step (answers and "
              "LookupInvoice projections must be identical), KV/SQL with injected write failures and crashes. After every event the safety predicate is "
              "evaluated on every settle resolution and on every invoice projection. non-trivial = at least one HTLC set was settled and (fault arms) a "
              "fault fired with a later event completing; distinct = distinct event-trace hash",
@@ -36,7 +36,8 @@ CHECK = {
         expected_probes=["probe_multi_shard_set_settled", "probe_amp_set_settled", "probe_hold_invoice_accepted", "probe_hold_invoice_settled",
                          "probe_hodl_settle_resolution", "probe_hodl_cancel_resolution", "probe_burst_parked_calls", "fault_mpp_set_timeout",
                          "fault_invoice_expired_by_time", "fault_hold_invoice_expired_by_height", "fault_restart", "fault_replay",
-                         "fault_io_failwrite", "fault_io_crashbefore", "fault_io_crashafter"],
+                         "fault_io_failwrite", "fault_io_crashbefore", "fault_io_crashafter",
+                         "fault_time_passes_inside_interceptor_call", "probe_window_hold_timers_fired_inside_call"],
         real_vs_stub=INVSIM_STUB, assumptions=INVSIM_ASSUME,
         simulated_time="simulated seconds and blocks are reported in counters sim_seconds / sim_blocks (fake clock, one timer at a time)",
         determinism="actor engine in a synctest bubble, one stimulus at a time to quiescence, one timer at a time; seam-deterministic (bursts release "
